@@ -29,6 +29,7 @@ def consts(model, cfg=None, secs=None):
     if cfg is not None:
         dt = float(cfg.get("dt", 1))
         c["aTau"] = dt / float(cfg["alpha_tau"])
+        c["alt"] = cfg["order_type"] == "alt"            # the variant that was asked for
         if cfg.get("class") == "psi":
             rt = cfg.get("restoration_tau", 60)
             names = sorted(secs) if secs is not None else None
@@ -55,6 +56,14 @@ def _consts_from_model(model):
     }
 
 
+def fresh_total(e):
+    """total demand addressed to each industry, from the demand matrix itself (not from the model's cached row sums)"""
+    tot = e["orders"].sum(axis=1) + e["fd"].sum(axis=1)
+    if e.get("reb") is not None and np.size(e["reb"]):
+        tot = tot + np.asarray(e["reb"]).reshape(tot.shape[0], -1).sum(axis=1)
+    return tot
+
+
 def capacity(c, e):
     delta = e["deltaTot"] if e["deltaTot"] is not None else 0.0
     return c["x0"] * (1 - delta) * e["alpha"]
@@ -69,7 +78,7 @@ def c03(tr, st, c):
     if not ph or ph.get("exc") or ph["post"] is None:
         return out
     pre, post = ph["pre"]["econ"], ph["post"]["econ"]
-    d, p, stock = pre["dTot"], post["prod"], pre["stock"]
+    d, p, stock = fresh_total(pre), post["prod"], pre["stock"]
     cap = capacity(c, pre)
     xo = np.fmin(d, cap)
     sc = np.maximum(np.abs(xo), 1e-300)
@@ -393,9 +402,9 @@ def c14(tr, st, c):
         return out
     pre, post = ph["pre"]["econ"], ph["post"]["econ"]
     a0, a1 = pre["alpha"], post["alpha"]
-    d, p = pre["dTot"], pre["prod"]
+    d, p = fresh_total(pre), pre["prod"]
     if c["aBase"] == 1.0:
-        inc = a1 > a0 * (1 + 1e-15)
+        inc = a1 > a0 * (1 + 1e-12)          # (a rise at the level of float rounding of the demand total is not a rise)
         if (inc & ~(d > p)).any():
             i = int(np.argmax(inc & ~(d > p)))
             out.append(viol("C14", t, "overproduction factor rose although demand did not exceed last production", cell=i,
@@ -408,7 +417,7 @@ def c14(tr, st, c):
             i = int(np.argmax(bad))
             out.append(viol("C14", t, "increase differs from (max - current) x scarcity / tau", cell=i, after=float(a1[i]), expected=float(want[i])))
         met = d <= p
-        if (met & (a1 > a0 * (1 + 1e-15))).any():
+        if (met & (a1 > a0 * (1 + 1e-12))).any():
             out.append(viol("C14", t, "factor increased while demand was met"))
         # under scarcity the factor moves by exactly (max - current) x scarcity / tau
         scarce = (d > p) & (sc > 1e-12)
